@@ -54,9 +54,14 @@ def convert_to_bool_expression(qlassf: QlassF, form: str):
 
 
 def convert_to_dimacs(expr):
-    clauses = to_cnf(expr, simplify=True).args
-    if len(clauses) == 1 and isinstance(clauses[0], sympy.Symbol):
-        clauses = [clauses]
+    cnf = to_cnf(expr, simplify=True)
+    if isinstance(cnf, sympy.And):
+        clauses = cnf.args
+    elif cnf == sympy.true:
+        clauses = []
+    else:
+        # a single clause, a single literal or false
+        clauses = [cnf]
 
     var_dict = {symbol: i + 1 for i, symbol in enumerate(expr.free_symbols)}
     dimacs_clauses = []
@@ -64,6 +69,8 @@ def convert_to_dimacs(expr):
     for clause in clauses:
         if isinstance(clause, sympy.Or):
             clause_literals = clause.args
+        elif clause == sympy.false:
+            clause_literals = []  # the empty clause: unsatisfiable
         else:
             clause_literals = [clause]
 
@@ -79,7 +86,7 @@ def convert_to_dimacs(expr):
     num_clauses = len(dimacs_clauses)
     dimacs_str = f"p cnf {num_vars} {num_clauses}\n"
     for clause in dimacs_clauses:
-        dimacs_str += " ".join(map(str, clause)) + " 0\n"
+        dimacs_str += " ".join(map(str, clause + [0])) + "\n"
     return dimacs_str
 
 
